@@ -132,6 +132,7 @@ class C20(Machine):
                         pb.step(c, k="call", obj=fn[op], name="__call__", args=args, kw={}, tag=op + ":again", role="eager", fname=op, **extra)
         plan = pb.finish(rng)
         plan["meta"].update(meta)
+        plan["recheck_results"] = True
         return plan
 
     def check(self, plan, hist, oracle):
@@ -244,5 +245,16 @@ class C20(Machine):
                 if any(s.get("c") != plan["steps"][lo].get("c") for s in plan["steps"][lo:hi]):
                     probe("other_client_ran_while_generator_suspended")
                     nontrivial = True
+        fin = by_id.get(-1)
+        if fin and fin.get("changed"):
+            # nextperm returns its (mutated) argument by design: a later change of that is the caller's doing
+            for sid in fin["changed"]:
+                stp = [s for s in plan["steps"] if s["id"] == sid]
+                if stp and (stp[0].get("fname") in ("permutk", "exactsum", "dynprog", "combink") or stp[0].get("role") == "pull"):
+                    if "lst" in stp[0] and stp[0].get("fname") in ("exactsum", "dynprog"):
+                        continue      # results of calls on a caller-kept list are compared call by call
+                    vs.append(vio("returned_value_changed_later", stp[0].get("fname", "permutk"), stp[0].get("tag", "?").split(":")[0], sid,
+                                  {"steps_whose_result_changed": fin["changed"][:5]}))
+                    break
         extra = {"faults": fcount, "fps": []}
         return vs, probes, "|".join(trace), nontrivial, extra
